@@ -1,7 +1,7 @@
 (** C03 - a successfully returned root is complete and durable in the store.
     Statements only; proofs are in Sched.v / Persist.v / Hist.v. *)
-From Coq Require Import List NArith ZArith Bool Arith.
-From Mast Require Import Prim Key Tree KeyOrder Codec Store Diff World Erase Build Spec Canon Level Inv Hist Persist Sched.
+From Coq Require Import List NArith ZArith Bool Arith Permutation.
+From Mast Require Import Prim Key Tree KeyOrder Codec Store Diff World Erase Build Spec Canon Level Inv Hist Persist Sched Reload Events MerkleHist SchedStore.
 Import ListNotations.
 
 (** the worker pool, over ALL interleavings of starts, flag checks and completions of the queued
@@ -42,6 +42,22 @@ Proof. exact k_make_root_ok. Qed.
 Theorem C03_store_monotone : forall t s h b, Store.lookup s h = Some b -> Store.lookup (apply_stores s t) h = Some b.
 Proof. intros t s h b. exact (apply_stores_keeps t s h b). Qed.
 
+(** The store a flush leaves behind does not depend on the order in which its writes complete: with
+    content addressing ([nocoll]: no two different byte strings under one name) a name is bound after
+    the writes exactly if it was bound before or is one of the writes, to those bytes; so every
+    permutation of the same writes - every completion order the worker pool allows - yields the same
+    store, and it is the store of the sequential model *)
+Theorem C03_bound_after_writes : forall t s h b, nocoll s t ->
+  (Store.lookup (apply_stores s t) h = Some b <-> Store.lookup s h = Some b \/ In (EStore h b) t).
+Proof. exact apply_stores_lookup. Qed.
+Theorem C03_store_independent_of_completion_order : forall s t t', Permutation t t' -> nocoll s t ->
+  nocoll s t' /\ forall h, Store.lookup (apply_stores s t') h = Store.lookup (apply_stores s t) h.
+Proof. exact store_order_independent. Qed.
+
+(** every write a persist issues is under the name of its bytes, whatever the outcome of the persist *)
+Theorem C03_every_write_named : forall f (m : kmast), evb store_named (make_root f m).
+Proof. exact make_root_evn. Qed.
+
 (** PARTIAL: the LTS's faithfulness to goroutines, channels and sync.WaitGroup, the retry
     behaviour after a failed write and the per-store cache prefix are established by the schedule /
     fault engine against the implementation (tools/special.py sched), not by these theorems. *)
@@ -53,3 +69,6 @@ Print Assumptions C03_schedule_independent.
 Print Assumptions C03_writes_named.
 Print Assumptions C03_persist_keeps_contents.
 Print Assumptions C03_store_monotone.
+Print Assumptions C03_bound_after_writes.
+Print Assumptions C03_store_independent_of_completion_order.
+Print Assumptions C03_every_write_named.
